@@ -596,5 +596,6 @@ func TestCheck(t *testing.T) {
 	if !done {
 		r.Capped("deadline reached before all (sequence, options) jobs were run")
 	}
+	c.live(t)
 	r.Finish()
 }
